@@ -119,7 +119,11 @@ def load_known():
 def run_property(prop, tier, base_seed, jobs=None, n_cases=None, only_seeds=None, quiet=False):
     t0 = time.time()
     mod = load_check(prop)
-    jobs = jobs or int(os.environ.get("VERIF_JOBS", "16"))
+    if not jobs:
+        jobs = int(os.environ.get("VERIF_JOBS", "16"))
+        throttle = os.path.join(VERIF, ".jobs_default")      # git-ignored; only present while many checks are being developed at once
+        if os.path.exists(throttle) and "VERIF_JOBS" not in os.environ:
+            jobs = int(open(throttle).read().strip() or 16)
     if only_seeds is not None:
         seeds = list(only_seeds)
     else:
